@@ -53,7 +53,8 @@ const (
 type reqRec struct {
 	ID      string
 	Role    string // idle, slow, pipe1, pipe2, done, late-silent, late-idle
-	Kind    string // fast, gated, donewait
+	Kind    string // fast, gated, donewait, timeouterr (ctx.TimeoutError), timeouthandler (TimeoutHandler timer fires), errkeep (500, connection kept)
+	Method  string // GET (default) or HEAD
 	BodyLen int
 	Chunked bool
 
@@ -71,11 +72,52 @@ type reqRec struct {
 	afterShut  atomic.Bool // handler started although this cycle's Shutdown had already returned nil
 }
 
-func (q *reqRec) wire() string {
-	return "GET /" + q.ID + " HTTP/1.1\r\nHost: c15.example\r\n\r\n"
+func (q *reqRec) method() string {
+	if q.Method == "" {
+		return "GET"
+	}
+	return q.Method
 }
 
-func (q *reqRec) wantBody() string { return q.ID + ":" + strings.Repeat("x", q.BodyLen) }
+func (q *reqRec) wire() string {
+	return q.method() + " /" + q.ID + " HTTP/1.1\r\nHost: c15.example\r\n\r\n"
+}
+
+// want is the status and body the client must receive for this request.
+func (q *reqRec) want() (int, string) {
+	switch q.Kind {
+	case "timeouterr":
+		return 408, "timeout:" + q.ID
+	case "timeouthandler":
+		return 408, "th:" + q.ID
+	case "errkeep":
+		return 500, "err:" + q.ID
+	}
+	if q.method() == "HEAD" {
+		return 200, ""
+	}
+	return 200, q.handlerBody()
+}
+
+func (q *reqRec) handlerBody() string { return q.ID + ":" + strings.Repeat("x", q.BodyLen) }
+
+// isResponse says whether m is the response to q (timeout responses carry no headers of the handler: they
+// are recognised by their unique message).
+func (q *reqRec) isResponse(m *h1.Msg) bool {
+	if v := m.Get("X-Id"); len(v) == 1 && v[0] == q.ID {
+		return true
+	}
+	if q.Kind == "timeouterr" || q.Kind == "timeouthandler" {
+		_, body := q.want()
+		return m.Status == 408 && string(m.Body) == body
+	}
+	return false
+}
+
+func (q *reqRec) correct(m *h1.Msg) bool {
+	st, body := q.want()
+	return m.Status == st && string(m.Body) == body
+}
 
 type client struct {
 	cyc         *cycle
@@ -84,6 +126,7 @@ type client struct {
 	Ln          int
 	reqs        []*reqRec
 	late        *reqRec // request sent on release (silent / lateidle), may be nil
+	IdleKind    string  // how an idle / lateidle connection became idle
 	SilentClose bool
 
 	conn    net.Conn
@@ -152,6 +195,7 @@ type cycleCfg struct {
 	SlowAccept    bool     `json:"slow_accept"`
 	AcceptDelayMs int      `json:"accept_delay_ms"`
 	Sits          []string `json:"situations"`
+	IdleKinds     []string `json:"idle_kinds,omitempty"`
 }
 
 // slowListener wraps the in-memory listener: when armed, the next Accept obtains the connection
@@ -260,8 +304,25 @@ func (k *kase) handler(ctx *fasthttp.RequestCtx) {
 			q.viaFB.Store(true)
 		}
 	}
+	switch q.Kind {
+	case "timeouterr":
+		ctx.TimeoutError("timeout:" + q.ID)
+	case "timeouthandler":
+		// the TimeoutHandler timer fires while the wrapped handler is parked; the client releases it as soon
+		// as it has the timeout response, so no abandoned handler is around when Shutdown is called
+		fasthttp.TimeoutHandler(func(*fasthttp.RequestCtx) { <-q.gate }, 2*time.Millisecond, "th:"+q.ID)(ctx)
+	case "errkeep":
+		ctx.Error("err:"+q.ID, 500)
+		ctx.Response.Header.Set("X-Id", q.ID)
+	}
+	if q.Kind == "timeouterr" || q.Kind == "timeouthandler" || q.Kind == "errkeep" {
+		q.cyc.bump("hend")
+		q.ended.Store(true)
+		k.inflight.Add(-1)
+		return
+	}
 	ctx.Response.Header.Set("X-Id", q.ID)
-	body := q.wantBody()
+	body := q.handlerBody()
 	if q.Chunked {
 		ctx.SetBodyStreamWriter(func(w *bufio.Writer) {
 			h := len(body) / 2
@@ -303,18 +364,38 @@ func (c *client) snapshot() []byte {
 	return append([]byte(nil), c.buf...)
 }
 
-// responseFor returns the complete response carrying id, if the client has received one.
-func responseFor(buf []byte, id string) *h1.Msg {
-	msgs, _ := h1.ParseResponses(buf, nil)
+// responseFor returns the complete response to q, if the client has received one. methods are the methods of
+// the requests sent on the connection, in order (HEAD responses have no body).
+func responseFor(buf []byte, q *reqRec, methods []string) *h1.Msg {
+	msgs, _ := h1.ParseResponses(buf, methods)
 	for _, m := range msgs {
 		if m.Fatal != "" || m.Has(h1.FIncomplete) {
 			continue
 		}
-		if v := m.Get("X-Id"); len(v) == 1 && v[0] == id {
+		if q.isResponse(m) {
 			return m
 		}
 	}
 	return nil
+}
+
+func (c *client) methods() []string {
+	var ms []string
+	for _, q := range c.reqs {
+		ms = append(ms, q.method())
+	}
+	if c.late != nil {
+		ms = append(ms, c.late.method())
+	}
+	return ms
+}
+
+func (c *client) wireAll() string {
+	var b strings.Builder
+	for _, q := range c.reqs {
+		b.WriteString(q.wire())
+	}
+	return b.String()
 }
 
 func (c *client) isEOF() bool {
@@ -327,14 +408,14 @@ func (c *client) isEOF() bool {
 }
 
 // waitResponse blocks until the response for id is complete, the conn hit EOF, or the watchdog fires.
-func (c *client) waitResponse(id string) string {
+func (c *client) waitResponse(q *reqRec) string {
 	dead := time.After(watchdog)
 	for {
-		if responseFor(c.snapshot(), id) != nil {
+		if responseFor(c.snapshot(), q, c.methods()) != nil {
 			return "ok"
 		}
 		if c.isEOF() {
-			if responseFor(c.snapshot(), id) != nil {
+			if responseFor(c.snapshot(), q, c.methods()) != nil {
 				return "ok"
 			}
 			return "eof"
@@ -373,8 +454,15 @@ func (c *client) run() {
 	go c.reader()
 	switch c.Sit {
 	case "idle", "lateidle":
-		if _, err := conn.Write([]byte(c.reqs[0].wire())); err == nil {
-			c.setupMsg = c.waitResponse(c.reqs[0].ID)
+		// one request, or a pipelined batch; idle once the last response is complete
+		if _, err := conn.Write([]byte(c.wireAll())); err == nil {
+			last := c.reqs[len(c.reqs)-1]
+			c.setupMsg = c.waitResponse(last)
+			for _, q := range c.reqs {
+				if q.Kind == "timeouthandler" {
+					q.gate <- false // the handler abandoned by TimeoutHandler may finish now
+				}
+			}
 		}
 	case "slow", "done":
 		if _, err := conn.Write([]byte(c.reqs[0].wire())); err == nil {
@@ -384,7 +472,7 @@ func (c *client) run() {
 		// connects and sends right away; the listener wrapper is still sitting on the connection
 		if _, err := conn.Write([]byte(c.reqs[0].wire())); err == nil {
 			if c.reqs[0].Kind == "fast" {
-				c.setupMsg = c.waitResponse(c.reqs[0].ID)
+				c.setupMsg = c.waitResponse(c.reqs[0])
 			} else {
 				c.setupMsg = c.waitStarted(c.reqs[0])
 			}
@@ -431,6 +519,18 @@ func doneWait() time.Duration {
 	return 15 * time.Second
 }
 
+// relevantStacks returns the goroutines that are inside fasthttp (all concurrently running cases), bounded.
+func relevantStacks() string {
+	var b strings.Builder
+	for _, g := range strings.Split(mon.Stacks(), "\n\n") {
+		if strings.Contains(g, "valyala/fasthttp.") && b.Len() < 200_000 {
+			b.WriteString(g)
+			b.WriteString("\n\n")
+		}
+	}
+	return b.String()
+}
+
 // serveConnStacks summarises where the server's connection goroutines are (diagnostics for slow shutdowns).
 func serveConnStacks() string {
 	var out []string
@@ -456,6 +556,66 @@ func serveConnStacks() string {
 	return fmt.Sprintf("%d shown: %s", len(out), strings.Join(out, " | "))
 }
 
+// Wall-clock bounds only mean something while this process gets to run. A monitor goroutine sleeps 20 ms at a
+// time and notes when it woke up more than 1.5 s late (machine swamped, process stopped): verdicts that rest on a
+// time bound are downgraded to inconclusive if such a stall happened while the bound was running.
+var lastStall atomic.Int64 // unix nano of the last observed stall
+
+func stallMonitor(stop <-chan struct{}) {
+	for {
+		select {
+		case <-stop:
+			return
+		default:
+		}
+		t0 := time.Now()
+		time.Sleep(20 * time.Millisecond)
+		if time.Since(t0) > 1500*time.Millisecond {
+			lastStall.Store(time.Now().UnixNano())
+		}
+	}
+}
+
+func stalledSince(t time.Time) bool { return lastStall.Load() >= t.UnixNano() }
+
+var timeBoundKeys = map[string]bool{"shutdown-hang": true, "shutdown-hang-idle-after-timeout-response": true, "done-not-closed": true,
+	"done-not-closed-later-cycle": true, "listener-open-after-shutdown": true, "serve-not-returned": true, "idle-conn-not-closed": true}
+
+// hangBroken counts established shutdown hangs; after three of them later cases wait only 5 s
+// (the violation is established; a broken tree must not take an hour).
+var hangBroken atomic.Int32
+
+func hangWait() time.Duration {
+	if hangBroken.Load() >= 3 {
+		return 5 * time.Second
+	}
+	return slackHang
+}
+
+// hangKey narrows shutdown-hang: if every connection the server still holds open is a keep-alive connection that
+// is idle after a timeout response (all its requests answered, the last one with a TimeoutError/TimeoutHandler
+// response), Shutdown is waiting for exactly those.
+func hangKey(clients []*client) string {
+	open, afterTimeout := 0, 0
+	for _, c := range clients {
+		if c.dialErr != nil || c.conn == nil || c.isEOF() {
+			continue
+		}
+		open++
+		if len(c.reqs) == 0 || (c.late != nil && c.lateErr == nil) {
+			continue
+		}
+		last := c.reqs[len(c.reqs)-1]
+		if (last.Kind == "timeouterr" || last.Kind == "timeouthandler") && responseFor(c.snapshot(), last, c.methods()) != nil {
+			afterTimeout++
+		}
+	}
+	if open > 0 && open == afterTimeout {
+		return "shutdown-hang-idle-after-timeout-response"
+	}
+	return "shutdown-hang"
+}
+
 func waitCh(ch <-chan struct{}, d time.Duration) bool {
 	select {
 	case <-ch:
@@ -464,6 +624,8 @@ func waitCh(ch <-chan struct{}, d time.Duration) bool {
 		return false
 	}
 }
+
+var idleKinds = []string{"normal", "normal", "timeouterr", "timeouterr", "timeouthandler", "errkeep", "head", "batch", "batch-timeout-last"}
 
 var laterSituations = []string{"idle", "slow", "done", "done", "pipe", "lateidle", "silent"}
 var slowAcceptSituations = []string{"idle", "idle", "idle", "lateidle", "slow", "silent"}
@@ -516,11 +678,28 @@ func runCase(r *mon.Run, i int) {
 			}
 			c := newClient(ci, sit)
 			switch c.Sit {
-			case "idle":
-				c.reqs = []*reqRec{newReq(ci, 0, "idle", "fast")}
-			case "lateidle":
-				c.reqs = []*reqRec{newReq(ci, 0, "idle", "fast")}
-				c.late = newReq(ci, 1, "late-idle", "fast")
+			case "idle", "lateidle":
+				// the ways a keep-alive connection becomes idle
+				c.IdleKind = idleKinds[rnd.Intn(len(idleKinds))]
+				switch c.IdleKind {
+				case "normal":
+					c.reqs = []*reqRec{newReq(ci, 0, "idle", "fast")}
+				case "timeouterr", "timeouthandler", "errkeep":
+					c.reqs = []*reqRec{newReq(ci, 0, "idle", c.IdleKind)}
+				case "head":
+					c.reqs = []*reqRec{newReq(ci, 0, "idle", "fast")}
+					c.reqs[0].Method = "HEAD"
+				case "batch":
+					for b := 0; b < 2+rnd.Intn(2); b++ {
+						c.reqs = append(c.reqs, newReq(ci, b, "idle", "fast"))
+					}
+				case "batch-timeout-last":
+					c.reqs = []*reqRec{newReq(ci, 0, "idle", "fast"), newReq(ci, 1, "idle", "timeouterr")}
+				}
+				if c.Sit == "lateidle" {
+					c.late = newReq(ci, 9, "late-idle", "fast")
+				}
+				cc.IdleKinds = append(cc.IdleKinds, c.IdleKind)
 			case "slow":
 				c.reqs = []*reqRec{newReq(ci, 0, "slow", "gated")}
 			case "done":
@@ -617,6 +796,7 @@ func runCycle(k *kase, cy *cycle, rnd *rand.Rand) (ok, nontrivial bool, class st
 	r, i, s, cfg := k.r, k.idx, k.s, cy.cfg
 	clients := cy.clients
 	payload := map[string]any{"config": k.cfg, "cycle": cy.n}
+	cycleStart := time.Now()
 	fail := func(why string) { r.Inconclusive(fmt.Sprintf("case %d cycle %d: %s", i, cy.n, why)) }
 	viol := func(key, what string) {
 		if cy.n > 0 {
@@ -624,6 +804,11 @@ func runCycle(k *kase, cy *cycle, rnd *rand.Rand) (ok, nontrivial bool, class st
 		}
 		if cy.n > 0 && key == "done-not-closed" {
 			key = "done-not-closed-later-cycle" // Done() works in the first Serve/Shutdown cycle of a Server, not in a later one
+		}
+		if timeBoundKeys[key] && stalledSince(cycleStart) {
+			r.Event("timebound_verdicts_dropped_process_stalled", 1)
+			r.Inconclusive(fmt.Sprintf("case %d cycle %d: %s would be reported, but this process itself was stalled for > 1.5 s meanwhile", i, cy.n, key))
+			return
 		}
 		r.Violation(i, key, what, payload)
 	}
@@ -641,6 +826,12 @@ func runCycle(k *kase, cy *cycle, rnd *rand.Rand) (ok, nontrivial bool, class st
 		for _, c := range clients {
 			for _, q := range c.reqs {
 				q.fbOnce.Do(func() { close(q.fallback) })
+				if q.Kind == "timeouthandler" {
+					select {
+					case q.gate <- false:
+					default:
+					}
+				}
 			}
 		}
 		for _, c := range clients {
@@ -812,14 +1003,16 @@ func runCycle(k *kase, cy *cycle, rnd *rand.Rand) (ok, nontrivial bool, class st
 		select {
 		case res = <-shutCh:
 			returned, slow = true, true
-		case <-time.After(time.Until(tRelease.Add(slackHang))):
+		case <-time.After(time.Until(tRelease.Add(hangWait()))):
 		}
 	}
 	if !returned {
 		if stalled != "" {
 			fail("Shutdown did not return, but the harness itself stalled: " + stalled)
 		} else {
-			viol("shutdown-hang", fmt.Sprintf("Shutdown has not returned %v after the last gate was released and every client went quiet (open=%d)\n%s", slackHang, s.GetOpenConnectionsCount(), mon.Stacks()))
+			hangBroken.Add(1)
+			payload["goroutines"] = relevantStacks()
+			viol(hangKey(clients), fmt.Sprintf("Shutdown has not returned %v after the last gate was released and every client went quiet (open connections reported by the server: %d; goroutine dump in the replay payload)", hangWait(), s.GetOpenConnectionsCount()))
 		}
 		cleanup()
 		return
@@ -862,7 +1055,8 @@ func runCycle(k *kase, cy *cycle, rnd *rand.Rand) (ok, nontrivial bool, class st
 	for l, ln := range cy.lns {
 		var derr error
 		ln := ln
-		wok := mon.Watchdog(closeGrace, func() {
+		// a closed listener refuses at once; an open one hands out a connection or (nobody accepting) blocks
+		wok := mon.Watchdog(slackHang, func() {
 			var c net.Conn
 			c, derr = ln.Dial()
 			if c != nil {
@@ -902,7 +1096,7 @@ func runCycle(k *kase, cy *cycle, rnd *rand.Rand) (ok, nontrivial bool, class st
 			sent = append(sent, c.late)
 		}
 		for _, q := range sent {
-			if responseFor(buf, q.ID) == nil {
+			if responseFor(buf, q, c.methods()) == nil {
 				allAnswered = false
 			}
 		}
@@ -910,6 +1104,9 @@ func runCycle(k *kase, cy *cycle, rnd *rand.Rand) (ok, nontrivial bool, class st
 			r.Event("client_conns_closed_by_server", 1)
 			if allAnswered {
 				nidle++
+				if c.IdleKind != "" && c.late == nil {
+					r.Event("idle_conns_closed_after_"+c.IdleKind, 1)
+				}
 			}
 			continue
 		}
@@ -950,7 +1147,7 @@ func runCycle(k *kase, cy *cycle, rnd *rand.Rand) (ok, nontrivial bool, class st
 			if !q.ended.Load() {
 				continue // reported by M1
 			}
-			m := responseFor(buf, q.ID)
+			m := responseFor(buf, q, c.methods())
 			if m == nil {
 				if !c.isEOF() {
 					// the client's reader has not drained the connection yet: cannot tell "lost" from "not read yet"
@@ -976,8 +1173,9 @@ func runCycle(k *kase, cy *cycle, rnd *rand.Rand) (ok, nontrivial bool, class st
 				viol(key, fmt.Sprintf("client %d (%s): handler of request %s (%s) started and ended, Shutdown returned nil, but the client did not receive a complete response for it; client read %d bytes: %s (close_on_shutdown=%v rmu=%v)", c.Idx, c.Sit, q.ID, q.Role, len(buf), mon.Short(buf, 160), k.cfg.CloseOnShutdown, k.cfg.RMU))
 				continue
 			}
-			if string(m.Body) != q.wantBody() || m.Status != 200 {
-				viol("response-corrupt", fmt.Sprintf("request %s: status %d, body %s, want 200 %s", q.ID, m.Status, mon.Short(m.Body, 80), mon.Short([]byte(q.wantBody()), 80)))
+			if !q.correct(m) {
+				wst, wbody := q.want()
+				viol("response-corrupt", fmt.Sprintf("request %s (%s %s): status %d, body %s, want %d %s", q.ID, q.method(), q.Kind, m.Status, mon.Short(m.Body, 80), wst, mon.Short([]byte(wbody), 80)))
 				continue
 			}
 			matched++
@@ -1129,7 +1327,15 @@ func runAged(r *mon.Run, a *agedCase) {
 	i, k, cy, s := a.idx, a.k, a.cy, a.k.s
 	rnd := r.Rand("aged-run", i)
 	fail := func(why string) { r.Inconclusive(fmt.Sprintf("aged case %d: %s", i, why)) }
-	viol := func(key, what string) { r.Violation(i, key, what, a.cfg) }
+	agedStart := time.Now()
+	viol := func(key, what string) {
+		if timeBoundKeys[key] && stalledSince(agedStart) {
+			r.Event("timebound_verdicts_dropped_process_stalled", 1)
+			r.Inconclusive(fmt.Sprintf("aged case %d: %s would be reported, but this process itself was stalled for > 1.5 s meanwhile", i, key))
+			return
+		}
+		r.Violation(i, key, what, a.cfg)
+	}
 	cleanup := func() {
 		for _, c := range a.clients {
 			if c.conn != nil {
@@ -1224,7 +1430,7 @@ func runAged(r *mon.Run, a *agedCase) {
 		viol("handler-running-after-shutdown", fmt.Sprintf("%d request handler(s) were between start and end when Shutdown returned nil", n))
 	}
 	var derr error
-	if dok := mon.Watchdog(closeGrace, func() {
+	if dok := mon.Watchdog(slackHang, func() {
 		var c net.Conn
 		if c, derr = cy.lns[0].Dial(); c != nil {
 			c.Close()
@@ -1261,13 +1467,13 @@ func runAged(r *mon.Run, a *agedCase) {
 			continue
 		}
 		buf := c.snapshot()
-		m := responseFor(buf, q.ID)
+		m := responseFor(buf, q, nil)
 		switch {
 		case m == nil && !closed:
 			fail(fmt.Sprintf("client %d has no response for %s but its connection is still open", c.Idx, q.ID))
 		case m == nil:
 			viol("response-lost-aged-first-request", fmt.Sprintf("connection %d had been open and silent for %v (>= 5 s: idle for closeIdleConns); its first request %s was sent while Shutdown was being called; the handler started and ended, Shutdown returned nil, but the client did not receive a complete response (read %d bytes: %s)", c.Idx, age.Round(time.Millisecond), q.ID, len(buf), mon.Short(buf, 120)))
-		case string(m.Body) != q.wantBody() || m.Status != 200:
+		case !q.correct(m):
 			viol("response-corrupt", fmt.Sprintf("request %s: status %d, body %s", q.ID, m.Status, mon.Short(m.Body, 80)))
 		default:
 			matched++
@@ -1287,19 +1493,23 @@ func runAged(r *mon.Run, a *agedCase) {
 func TestC15(t *testing.T) {
 	r := mon.Start(t, "C15")
 	defer r.Finish()
-	r.Rule("case = one Server{ReduceMemoryUsage, CloseOnShutdown, IdleTimeout} going through 1-3 Serve/Shutdown cycles (every later cycle has a handler blocked on ctx.Done() when Shutdown is called); per cycle: 1-2 InmemoryListeners (wrapped: in 1/4 of the cycles Accept obtains the last client's connection, Shutdown is called, and Serve gets the connection only 60-560 ms later) x 1-16 client connections each in a PRNG situation {idle keep-alive, handler parked on a harness gate, pipelined pair (first gated), handler waiting on ctx.Done(), accepted-but-silent (closed or sending a request once shutdown runs), idle keep-alive that sends a new request once shutdown runs} x Shutdown|ShutdownWithContext called at a PRNG moment {all clients settled, k-th StateNew/StateActive/StateIdle, k-th handler start/end} x gates released in PRNG order before/after Done() was seen closed; one process-wide seeded perturber (yield/sleep <=2ms) at srv.shutdown.tick, srv.beforeHandler, srv.afterHandler, srv.beforeWrite, srv.accepted, wp.* (cases run concurrently, so the interleaving itself is not replayable); distinct = (config, trigger, connection-count bucket, set of situations, handler in flight at the call); non-trivial = a handler was in flight when Shutdown was called, an idle keep-alive connection existed, or an accepted connection was still inside Accept")
-	r.Assume("only Shutdown calls that returned nil are judged; handlers never hijack and never use TimeoutHandler/TimeoutError")
+	r.Rule("case = one Server{ReduceMemoryUsage, CloseOnShutdown, IdleTimeout} going through 1-3 Serve/Shutdown cycles (every later cycle has a handler blocked on ctx.Done() when Shutdown is called); per cycle: 1-2 InmemoryListeners (wrapped: in 1/4 of the cycles Accept obtains the last client's connection, Shutdown is called, and Serve gets the connection only 60-560 ms later) x 1-16 client connections each in a PRNG situation {idle keep-alive (idle after a normal response | a ctx.TimeoutError response | a TimeoutHandler timeout | a 500 that kept the connection | a HEAD | a pipelined batch | a batch ending in a timeout response), handler parked on a harness gate, pipelined pair (first gated), handler waiting on ctx.Done(), accepted-but-silent (closed or sending a request once shutdown runs), idle keep-alive that sends a new request once shutdown runs} x Shutdown|ShutdownWithContext called at a PRNG moment {all clients settled, k-th StateNew/StateActive/StateIdle, k-th handler start/end} x gates released in PRNG order before/after Done() was seen closed; one process-wide seeded perturber (yield/sleep <=2ms) at srv.shutdown.tick, srv.beforeHandler, srv.afterHandler, srv.beforeWrite, srv.accepted, wp.* (cases run concurrently, so the interleaving itself is not replayable); distinct = (config, trigger, connection-count bucket, set of situations, handler in flight at the call); non-trivial = a handler was in flight when Shutdown was called, an idle keep-alive connection existed, or an accepted connection was still inside Accept")
+	r.Assume("only Shutdown calls that returned nil are judged; handlers never hijack; TimeoutError/TimeoutHandler are used only on requests that are complete (and whose abandoned handler has been released) before Shutdown is called, so no abandoned handler runs during shutdown")
 	r.Assume("'idle keep-alive connection' = a connection on which every request sent has been answered completely; connections that never sent a byte are not required to be closed by the server (fasthttp treats them as active / closes them after 5 s) - the harness closes them or sends a request as part of the release phase")
 	r.Assume("'response written' is observed at the client: a complete response (independent h1 framing) carrying the request's unique id and exact body must have been read from the connection")
 	r.Assume("bounded liveness: Shutdown returning later than 4.1 s (100 ms ticker + 4 s slack) after the last gate release is inconclusive, later than 41 s (or never) with all gates released is shutdown-hang; server-side close of connections and the return of Serve are awaited for 10 s after Shutdown returned")
 	r.Assume("'Serve has returned' is judged strictly only through the listener wrapper (Shutdown returned nil while Accept still held a connection for Serve) and through handlers that stamp their own start after Shutdown's return; otherwise Serve is given 10 s to return")
 	r.Assume("aged family: connections opened when the test process starts and silent for >= 5 s (wall clock only to let the server's own 5-second rule apply); during that family srv.firstByte additionally sleeps 3-30 ms to widen the window between reading the first byte and marking the connection active")
+	r.Assume("verdicts resting on a time bound (shutdown-hang*, done-not-closed by timeout, listener probe blocked, serve-not-returned, idle-conn-not-closed) are downgraded to inconclusive when a monitor goroutine observed that this process itself was not scheduled for > 1.5 s while the bound was running")
 	r.Assume("the explored interleavings are those produced by the perturber and the scheduler on this machine, not all interleavings")
 	p := sched.New(r.Seed()*7919 + 15)
 	p.Intensity = 40
 	p.MaxSleep = 2 * time.Millisecond
 	p.Only = map[string]bool{"srv.shutdown.tick": true, "srv.beforeHandler": true, "srv.afterHandler": true, "srv.beforeWrite": true, "srv.accepted": true, "srv.firstByte": true,
 		"wp.serve.beforesend": true, "wp.release.enter": true, "wp.stop.enter": true}
+	stopStall := make(chan struct{})
+	go stallMonitor(stopStall)
+	defer close(stopStall)
 	p.OnPoint = agedOnPoint
 	p.Install()
 	defer sched.Uninstall()
@@ -1344,6 +1554,9 @@ func TestC15(t *testing.T) {
 		r.Require("slow_accept_requests_answered", n/20)
 		r.Require("later_cycles_completed", n/5)
 		r.Require("idlehook_done_closed_before_callback_returned", n/20)
+		for _, kind := range []string{"normal", "timeouterr", "timeouthandler", "errkeep", "head", "batch", "batch-timeout-last"} {
+			r.Require("idle_conns_closed_after_"+kind, n/40)
+		}
 		r.Require("aged_conns_silent_for_5s", nAged)
 		r.Require("aged_requests_handler_started", 1)
 		r.Require("aged_requests_written_but_not_started", nAged/4)
